@@ -1,6 +1,6 @@
 """C16 - IMU preintegration: carried-state completeness, rank normalisation, product direction, composition roles,
 increment slicing, and reachability of the scan primitive's integer-kind rule."""
-import ast
+import ast, re
 from ..core import RuleResult, Finding, AnalysisError, dotted, src, norm_construct, guarded, guarded_list
 from ..expr import inline_straight, returns_of, dump, subst, rv
 from .. import paths
@@ -159,6 +159,91 @@ def rule_rank(repo):
     return res
 
 
+def _frame_normaliser(repo, f, e):
+    """if e wraps an operand in a frame-axis insertion (x.unsqueeze(-2), x[..., None, :], or a helper of the class / module that does one of
+    these to its argument) return the wrapped operand, else None"""
+    if isinstance(e, ast.Call) and isinstance(e.func, ast.Attribute) and e.func.attr == 'unsqueeze' and len(e.args) == 1 and src(e.args[0]).replace(' ', '') == '-2':
+        return e.func.value
+    if isinstance(e, ast.Subscript) and isinstance(e.slice, ast.Tuple) and len(e.slice.elts) == 3 and isinstance(e.slice.elts[0], ast.Constant) and \
+            e.slice.elts[0].value is Ellipsis and isinstance(e.slice.elts[1], ast.Constant) and e.slice.elts[1].value is None and isinstance(e.slice.elts[2], ast.Slice):
+        return e.value
+    if isinstance(e, ast.Call) and len(e.args) == 1 and not e.keywords:
+        tg, how = repo.resolve_call(f, e)
+        for g in tg or []:
+            if g.module.name != IMU:
+                continue
+            ps = [p_ for p_ in g.pos_params if p_ not in ('self', 'cls')]
+            if len(ps) != 1:
+                continue
+            hit = False
+            for n in ast.walk(g.node):
+                inner = _frame_normaliser(repo, g, n) if isinstance(n, (ast.Call, ast.Subscript)) and not (isinstance(n, ast.Call) and len(n.args) == 1 and not isinstance(n.func, ast.Attribute)) else None
+                if inner is not None and isinstance(inner, ast.Name) and inner.id == ps[0]:
+                    hit = True
+            if hit:
+                return e.args[0]
+    return None
+
+
+def _strip_frames(repo, f, e):
+    class T(ast.NodeTransformer):
+        def generic_visit(self, n):
+            n = super().generic_visit(n)
+            if isinstance(n, (ast.Call, ast.Subscript)):
+                inner = _frame_normaliser(repo, f, n)
+                if inner is not None:
+                    return inner
+            return n
+    import copy
+    return T().visit(copy.deepcopy(e))
+
+
+@guarded
+def rule_stateax(repo):
+    """predict() and integrate() document their initial state as ONE state per batch item, shape (B, H_in), and combine it with increments of shape
+    (B, F, H_out).  Right-aligned broadcasting would match the batch axis of the state with the FRAME axis of the increments (an error for B != F, item
+    b applied to frame b when the two agree): the state needs a frame axis inserted (B, 1, H) before it meets an increment."""
+    res = RuleResult('C16.STATEAX', 'every initial-state operand of predict() (init_state[pos|rot|vel]) and the init_rot of integrate(), documented with the '
+                     'per-item shape (B, H_in), passes through a frame-axis insertion (unsqueeze(-2) / [..., None, :] / a helper doing it) before it is '
+                     'combined with a (B, F, H) increment', floor=2)
+    for q, is_state, is_incr in ((CLS + '.predict', lambda x: isinstance(x, ast.Subscript) and dotted(x.value) == 'init_state',
+                                  lambda x: isinstance(x, ast.Subscript) and dotted(x.value) == 'integrate'),
+                                 (CLS + '.integrate', lambda x: isinstance(x, ast.Name) and x.id == 'init_rot',
+                                  lambda x: isinstance(x, ast.Name) and x.id in ('incre_r', 'incre_v', 'incre_p', 'incre_t'))):
+        f = repo.func(IMU, q)
+        doc = ast.get_docstring(f.node) or ''
+        per_item = bool(re.search(r'init_(state|rot)[^\n]*(\n[^\n-]*){0,4}\(B, H_\{in\}\)', doc))
+        parents = {}
+        for n in ast.walk(f.node):
+            for c in ast.iter_child_nodes(n):
+                parents[id(c)] = n
+        # names that hold a bare state operand (a, b = init_state['a'], init_state['b'] / x = init_rot): their arithmetic uses count as well
+        holders = set()
+        for n in ast.walk(f.node):
+            if isinstance(n, ast.Assign) and len(n.targets) == 1 and isinstance(n.targets[0], ast.Name) and is_state(n.value):
+                holders.add(n.targets[0].id)
+        for n in ast.walk(f.node):
+            if not (is_state(n) or (isinstance(n, ast.Name) and n.id in holders and isinstance(n.ctx, ast.Load))):
+                continue
+            if isinstance(getattr(n, 'ctx', None), ast.Store):
+                continue
+            par = parents.get(id(n))
+            # position of this use
+            if isinstance(par, (ast.BinOp,)) and isinstance(par.op, (ast.Mult, ast.Add, ast.Sub, ast.MatMult, ast.Div)):
+                other = par.right if par.left is n else par.left
+                res.inst({'function': f.fq, 'state operand': src(n)[:40], 'used in': src(par)[:50], 'documented per item (B, H_in)': per_item, 'frame axis inserted': False},
+                         (f.fq, src(n), src(par)[:60]))
+                if per_item:
+                    res.add(Finding('C16.STATEAX', f, '`%s` (documented shape (B, H_in): one state per batch item) is combined with `%s` as it is: against a (B, F, H) '
+                                    'increment broadcasting aligns its batch axis with the frame axis - a size error for B != F (B > 1), and for B == F item b of '
+                                    'the state silently meets frame b of every item' % (src(n)[:40], src(other)[:40]), node=par,
+                                    construct='state without frame axis|' + src(n)[:40]))
+            elif isinstance(par, (ast.Call, ast.Subscript)) and _frame_normaliser(repo, f, par) is n:
+                res.inst({'function': f.fq, 'state operand': src(n)[:40], 'used in': src(par)[:50], 'documented per item (B, H_in)': per_item, 'frame axis inserted': True},
+                         (f.fq, src(n), src(par)[:60]))
+    return res
+
+
 @guarded
 def rule_dir_comp(repo):
     res = RuleResult('C16.DIR', 'rotation increments are accumulated as a right product (cumprod(..., left=False)) of [identity, Exp(w dt)...]; '
@@ -200,7 +285,7 @@ def rule_dir_comp(repo):
     if v0 is None:
         raise AnalysisError('C16.COMP: predict no longer returns a dict literal')
     pin = inline_straight(p.node, upto=rets[0])
-    d = {k.value: src(pin.value(v)).replace(' ', '').replace('"', "'") for k, v in zip(v0.keys, v0.values)
+    d = {k.value: src(_strip_frames(repo, p, pin.value(v))).replace(' ', '').replace('"', "'") for k, v in zip(v0.keys, v0.values)
          if isinstance(k, ast.Constant)}
     want = {'rot': ["init_state['rot']*integrate['Dr']", "init_state['rot']@integrate['Dr']"],
             'vel': ["init_state['vel']+init_state['rot']*integrate['Dv']", "init_state['vel']+init_state['rot']@integrate['Dv']"],
@@ -415,7 +500,7 @@ def _rules_core(repo, tier):
     from ..effects import rule_pure
     from ..fresh import rule_fresh
     t = [(IMU, CLS + '.forward'), (IMU, CLS + '.integrate'), (IMU, CLS + '.predict'), (IMU, CLS + '.propagate_cov'), (IMU, CLS + '._check')]
-    return [rule_grav(repo), rule_scan(repo), rule_covord(repo), rule_carry(repo), rule_rank(repo), rule_dir_comp(repo), rule_dep(repo), rule_init(repo), rule_cov(repo),
+    return [rule_grav(repo), rule_scan(repo), rule_stateax(repo), rule_covord(repo), rule_carry(repo), rule_rank(repo), rule_dir_comp(repo), rule_dep(repo), rule_init(repo), rule_cov(repo),
             rule_pure(repo, 'C16.PURE', 'the integrator does not write in place into the measurement tensors it is given (dt, gyro, acc, rot, init_state): '
                       'feeding the same stream again, whole or in chunks, starts from the same data', t),
             rule_fresh(repo, 'C16.FRESH', 'nothing the integrator writes in place is loaded from the integrator object (the carried state is rebound, '
